@@ -10,6 +10,7 @@ Template directives (lines starting with //@@):
   //@@ loop <k>                               text of the following //@@| lines is spliced between the
   //@@|   invariant ...                       header of the k-th loop of the body and its `{`
   //@@ itername <k> <name>                    the k-th loop `for p in e` becomes `for p in <name>: e` (ghost iterator name)
+  //@@ loopstart <k> / loopend <k> / loopafter <k>   text spliced at the beginning / end of the k-th loop's body / after the loop
   //@@ after "<statement text>"               text of the following //@@| lines is spliced after the
   //@@|   proof { ... }                       first statement whose whitespace-free text matches
   //@@ before "<statement text>"              the same, spliced before the statement
@@ -158,6 +159,35 @@ def loop_headers(body):
             continue
         i += 1
     return out
+
+
+def rewrite_array_patterns(body):
+    cnt = [0]
+
+    def split_top(t):
+        out, d, cur = [], 0, ""
+        for c in t:
+            if c in "([":
+                d += 1
+            if c in ")]":
+                d -= 1
+            if c == "," and d == 0:
+                out.append(cur.strip())
+                cur = ""
+            else:
+                cur += c
+        if cur.strip():
+            out.append(cur.strip())
+        return out
+
+    def rep(m):
+        cnt[0] += 1
+        n = "arr__%d" % cnt[0]
+        els = split_top(m.group(2))
+        return m.group(1) + "let %s = %s; " % (n, m.group(3)) + " ".join("let %s = %s[%d];" % (e, n, i) for i, e in enumerate(els))
+
+    body = re.sub(r"(\s)let \[([^=]+)\] = ([^;]+);", rep, body)
+    return body, cnt[0]
 
 
 def splice_stmt(body, stmt, text, before=False):
@@ -555,6 +585,10 @@ def build_unit(ws, unit_name):
                 # text placed in front of the body's trailing expression (after the last top-level statement)
                 pending["tail"] = []
                 pending["cur"] = pending["tail"]
+            elif d.startswith("arraypat"):
+                # `arraypat`: `let [p0, p1, ..] = e;` (slice patterns, unsupported by Verus) becomes
+                # `let arr__k = e; let p0 = arr__k[0]; let p1 = arr__k[1]; ..` (recorded as a rewrite)
+                pending["arraypat"] = True
             elif d.startswith("itername"):
                 # `itername k name`: the k-th loop is a `for pat in expr`; name its ghost iterator (`for pat in name: expr`)
                 pending.setdefault("iternames", {})[int(d.split()[1])] = d.split()[2]
@@ -563,6 +597,11 @@ def build_unit(ws, unit_name):
                 k = int(d.split()[1])
                 pending.setdefault("loopafters", {})[k] = []
                 pending["cur"] = pending["loopafters"][k]
+            elif d.startswith("loopstart"):
+                # `loopstart k`: text placed at the beginning of the k-th loop's body
+                k = int(d.split()[1])
+                pending.setdefault("loopstarts", {})[k] = []
+                pending["cur"] = pending["loopstarts"][k]
             elif d.startswith("loopend"):
                 # `loopend k`: text placed at the end of the k-th loop's body; `loopend? k`: if that loop exists
                 k = int(d.split()[1])
@@ -588,7 +627,7 @@ def build_unit(ws, unit_name):
                 raise ExtractError("unknown directive: " + st)
             i += 1
             continue
-        mexpr = re.search(r'/\*@@expr source="([^"]+)" anchor="([^"]+)"(?: end="([^"]+)")?\*/', ln)
+        mexpr = re.search(r'/\*@@expr source="([^"]+)" anchor="([^"]+)"(?: end="([^"]+)")?(?: sub="([^"]+)" with="([^"]*)")?\*/', ln)
         if mexpr:
             path = os.path.join(ws, mexpr.group(1))
             if not os.path.exists(path):
@@ -602,8 +641,11 @@ def build_unit(ws, unit_name):
             st_i = idx[pos + len(a) - 1] + 1
             en_i = text.index(mexpr.group(3) or ";", st_i)
             val = text[st_i:en_i].strip()
+            if mexpr.group(4):
+                val = re.sub(r"//[^\n]*", "", val).replace(mexpr.group(4), mexpr.group(5))
             out.append(ln.replace(mexpr.group(0), val))
-            report.append({"source": mexpr.group(1), "anchor": mexpr.group(2), "expr": val})
+            report.append({"source": mexpr.group(1), "anchor": mexpr.group(2), "expr": val if len(val) < 200 else val[:200] + "...",
+                           "substitution": [mexpr.group(4), mexpr.group(5)] if mexpr.group(4) else None})
             i += 1
             continue
         if "/*@@body*/" in ln and not st.startswith("//"):
@@ -632,9 +674,13 @@ def build_unit(ws, unit_name):
                     body, n = re.subn(a, b, body, flags=re.S)
                 applied.append({"kind": kind, "from": a, "to": b, "count": n})
             # loop ends first (closing braces, from the last position to the first), then loop headers
-            if p.get("loopends") or p.get("loopafters"):
+            if p.get("loopends") or p.get("loopafters") or p.get("loopstarts"):
                 hdrs = loop_headers(body)
                 ends = []
+                for k in p.get("loopstarts", {}):
+                    if k > len(hdrs):
+                        raise ExtractError("lost anchor: loop %d of `%s` not found" % (k, p["anchor"]))
+                    ends.append((hdrs[k - 1][1] + 1, "loopstarts", k))
                 for kind in ("loopends", "loopafters"):
                     for k in p.get(kind, {}):
                         if k > len(hdrs):
@@ -645,6 +691,9 @@ def build_unit(ws, unit_name):
                         ends.append((c_idx + (1 if kind == "loopafters" else 0), kind, k))
                 for c_idx, kind, k in sorted(ends, reverse=True):
                     body = body[:c_idx] + "\n" + "\n".join(p[kind][k]) + "\n" + body[c_idx:]
+            if p.get("arraypat"):
+                body, n_ap = rewrite_array_patterns(body)
+                applied.append({"kind": "arraypat", "from": "let [p0, p1, ..] = e;", "to": "let arr__k = e; let p0 = arr__k[0]; ..", "count": n_ap})
             if p.get("iternames"):
                 hdrs = loop_headers(body)
                 for k in sorted(p["iternames"], reverse=True):
